@@ -21,8 +21,8 @@ Definition fstate (i o : Z) (dp : N) : fctl :=
 
 Section filt.
   Variable flt : N -> option bool.
-  Variables (fm : bool) (gd ms : N) (sh : shape).
-  Let c := fcfg flt fm gd ms sh.
+  Variables (fm : bool) (gd thr ms : N) (sh : shape).
+  Let c := fcfg flt fm gd thr ms sh.
 
   Ltac open_entry Hi :=
     unfold do_enter, hooked, entry_check;
@@ -149,17 +149,21 @@ Section filt.
     unfold skip. cbn [f_flags gfl norecord disabled orb fst snd]. reflexivity.
   Qed.
 
-  (* exit of a recorded frame (no threshold, the call took at least one tick) *)
+  (* exit of a frame that may be recorded: kept iff it ran longer than the threshold or was already written *)
   Lemma leave_rec s w flt_hit a t0 r i0 o0 dp0 t1 anc i o dp :
     stack s = gf w flt_hit a t0 r (fstate i0 o0 dp0) :: anc -> fc s = fstate i o dp -> enabled s = true ->
-    ridx s = r + 1 -> t0 < t1 -> t1 < 18446744073709551616 ->
+    ridx s = r + 1 -> t0 <= t1 -> t1 < 18446744073709551616 -> 0 < t1 ->
     do_leave c s t1 =
-    {| fc := fstate (if flt_hit then i - 1 else i)%Z o dp0; enabled := true; cached := cached s;
-       stack := if w then anc else fst (flush_anc anc); ridx := r;
-       out := out s ++ (if w then [] else snd (flush_anc anc) ++ [E_ a t0 r]) ++ [X_ a t1 r];
-       warned := warned s |}.
+    if (thr <? t1 - t0) || w then
+      {| fc := fstate (if flt_hit then i - 1 else i)%Z o dp0; enabled := true; cached := cached s;
+         stack := if w then anc else fst (flush_anc anc); ridx := r;
+         out := out s ++ (if w then [] else snd (flush_anc anc) ++ [E_ a t0 r]) ++ [X_ a t1 r];
+         warned := warned s |}
+    else
+      {| fc := fstate (if flt_hit then i - 1 else i)%Z o dp0; enabled := true; cached := cached s;
+         stack := anc; ridx := r; out := out s; warned := warned s |}.
   Proof.
-    intros Hst Hfc Hen Hr Ht Hlt. unfold do_leave. rewrite Hst.
+    intros Hst Hfc Hen Hr Ht Hlt Hpos. unfold do_leave. rewrite Hst.
     set (fr := gf w flt_hit a t0 r (fstate i0 o0 dp0)).
     assert (Hg : f_ghost fr = false) by (subst fr; destruct w; reflexivity). rewrite Hg.
     assert (Hnr : norecord (f_flags fr) = false) by (subst fr; destruct w; reflexivity).
@@ -191,13 +195,14 @@ Section filt.
     assert (Hr1 : (0 <? r + 1) = true) by lia. rewrite Hr1.
     replace (r + 1 - 1) with r by lia.
     unfold c. cbn [fcfg has_caller threshold negb andb orb].
-    assert (Hd0 : (0 <? t1 - t0) = true) by lia. rewrite Hd0. cbn [andb orb].
-    unfold record_trace_data. rewrite Hfl, Hw.
-    assert (Hend : (f_end (set_end fr t1) =? 0) = false) by (cbn [set_end f_end]; lia).
+    rewrite andb_true_r, orb_false_r.
     assert (Hfc' : {| in_count := if flt_hit then (i - 1)%Z else i; out_count := if flt_hit then o else o;
                       depth := dp0; max_depth := FILTER_NO_MAX_DEPTH; ftime := NO_TIME; fsize := 0 |}
                    = fstate (if flt_hit then (i - 1)%Z else i) o dp0) by (destruct flt_hit; reflexivity).
     rewrite Hfc'.
+    destruct ((thr <? t1 - t0) || w) eqn:Dec; [|reflexivity].
+    unfold record_trace_data. rewrite Hfl, Hw.
+    assert (Hend : (f_end (set_end fr t1) =? 0) = false) by (cbn [set_end f_end]; lia).
     destruct w.
     - cbn [orb]. rewrite Hend. cbn [app]. unfold exit_rec, X_. subst fr.
       cbn [set_end gf set_written gframe f_end f_depth f_addr]. reflexivity.
@@ -261,44 +266,41 @@ Section filt.
     (0 <= i)%Z /\ (0 <= o)%Z /\ (dead x = true <-> (0 < o)%Z) /\
     (dead x = false -> (scope x = true <-> (fm = false \/ (0 < i)%Z)) /\ budget x = gd - dp /\ dp <= gd).
 
-  Lemma sel_dead x d k : dead x = true -> sel flt gd x d k = [].
+  Lemma sel_dead x d k : dead x = true -> sel flt gd thr x d k = [].
   Proof. intro H. destruct k. cbn [sel]. rewrite H. reflexivity. Qed.
-  Lemma sel_dead_list x d ks : dead x = true -> flat_map (sel flt gd x d) ks = [].
+  Lemma sel_dead_list x d ks : dead x = true -> flat_map (sel flt gd thr x d) ks = [].
   Proof. intro H. induction ks as [|k r IH]; cbn [flat_map]; [reflexivity|]. rewrite sel_dead, IH; auto. Qed.
 
   Hypothesis Hgd : 0 < gd.
 
   Lemma run_kids_sel (ks : list call) :
-    Forall (fun k => timed k -> positive k -> forall s hk i o dp x d,
+    Forall (fun k => timed k -> forall s hk i o dp x d,
                      fc s = fstate i o dp -> Rel i o dp x -> enabled s = true -> ridx s = d ->
                      idx s + height k <= ms ->
-                     exists s', exec c (flat k) (s, hk) = (s', hk) /\ afterg s s' d (sel flt gd x d k)) ks ->
-    all_timed ks -> all_positive ks -> forall s hk i o dp x d,
+                     exists s', exec c (flat k) (s, hk) = (s', hk) /\ afterg s s' d (sel flt gd thr x d k)) ks ->
+    all_timed ks -> forall s hk i o dp x d,
     fc s = fstate i o dp -> Rel i o dp x -> enabled s = true -> ridx s = d -> idx s + heights ks <= ms ->
-    exists s', exec c (flat_map flat ks) (s, hk) = (s', hk) /\ afterg s s' d (flat_map (sel flt gd x d) ks).
+    exists s', exec c (flat_map flat ks) (s, hk) = (s', hk) /\ afterg s s' d (flat_map (sel flt gd thr x d) ks).
   Proof.
-    induction 1 as [|k r Hk _ IH]; intros HT HP s hk i o dp x d Hfc HR Hen Hr Hh.
+    induction 1 as [|k r Hk _ IH]; intros HT s hk i o dp x d Hfc HR Hen Hr Hh.
     - exists s. split; [reflexivity|]. apply afterg_nil; assumption.
-    - destruct HT as [Tk Tr]. destruct HP as [Pk Pr]. cbn [heights fold_right] in Hh. fold (heights r) in Hh.
-      destruct (Hk Tk Pk s hk i o dp x d Hfc HR Hen Hr) as (s1 & E1 & A1); [lia|].
+    - destruct HT as [Tk Tr]. cbn [heights fold_right] in Hh. fold (heights r) in Hh.
+      destruct (Hk Tk s hk i o dp x d Hfc HR Hen Hr) as (s1 & E1 & A1); [lia|].
       pose proof (afterg_idx _ _ _ _ A1) as I1.
       assert (A1' := A1). destruct A1' as (F1 & En1 & _ & R1 & _ & _).
-      destruct (IH Tr Pr s1 hk i o dp x d) as (s2 & E2 & A2); try assumption; [congruence|lia|].
+      destruct (IH Tr s1 hk i o dp x d) as (s2 & E2 & A2); try assumption; [congruence|lia|].
       exists s2. split.
       + cbn [flat_map]. unfold exec in *. rewrite fold_left_app, E1. exact E2.
       + cbn [flat_map]. eapply afterg_trans; eassumption.
   Qed.
 
-  Theorem run_call_sel : forall k, timed k -> positive k -> forall s hk i o dp x d,
+  Theorem run_call_sel : forall k, timed k -> forall s hk i o dp x d,
     fc s = fstate i o dp -> Rel i o dp x -> enabled s = true -> ridx s = d -> idx s + height k <= ms ->
-    exists s', exec c (flat k) (s, hk) = (s', hk) /\ afterg s s' d (sel flt gd x d k).
+    exists s', exec c (flat k) (s, hk) = (s', hk) /\ afterg s s' d (sel flt gd thr x d k).
   Proof.
-    induction k as [a t0 t1 kids IH] using call_ind'. intros HT HP s hk i o dp x d Hfc HR Hen Hr Hh.
+    induction k as [a t0 t1 kids IH] using call_ind'. intros HT s hk i o dp x d Hfc HR Hen Hr Hh.
     pose proof (run_kids_sel kids IH (timed_kids _ _ _ _ HT)) as RK. clear IH.
-    assert (PK : all_positive kids).
-    { destruct HP as (_ & H). clear -H. induction kids; cbn in *; tauto. }
-    specialize (RK PK).
-    destruct HT as (Ht01 & Ht1 & Hpos & _). destruct HP as (Hlt & _).
+    destruct HT as (Ht01 & Ht1 & Hpos & _).
     cbn [height] in Hh. fold (heights kids) in Hh.
     assert (Hi : idx s < ms) by lia.
     assert (HRel := HR). destruct HR as (Hi0 & Ho0 & Hdead & Hlive).
@@ -306,7 +308,7 @@ Section filt.
     assert (Hsh : sh = PG \/ sh = CYG) by (destruct sh; auto).
     (* a rejected entry: run the kids in the same context, nothing recorded for this call *)
     assert (REJ : ((0 < o)%Z \/ (flt a = None /\ ((fm = true /\ i = 0%Z) \/ gd <= dp))) ->
-                  forall Rk, Rk = flat_map (sel flt gd x d) kids ->
+                  forall Rk, Rk = flat_map (sel flt gd thr x d) kids ->
                   exists s', dstep c (fold_left (dstep c) (flat_map flat kids)
                                         (do_enter c s a t0, hooked c s a :: hk)) (Leave t1) = (s', hk)
                              /\ afterg s s' d Rk).
@@ -333,18 +335,18 @@ Section filt.
         destruct A2 as (F2 & En2 & C2 & R2 & S2 & O2). cbn [stack out cached fc] in *.
         (* the NORECORD frame is skipped by every flush: it is still on top, unchanged *)
         assert (S2' : stack s2 = gframe CYG true false false a 0 (ridx s) (fstate i o dp) ::
-                                 (if is_nil (flat_map (sel flt gd x d) kids) then stack s else fst (flush_anc (stack s)))).
+                                 (if is_nil (flat_map (sel flt gd thr x d) kids) then stack s else fst (flush_anc (stack s)))).
         { rewrite S2. destruct (is_nil _); [reflexivity|].
           cbn [flush_anc gframe f_flags gfl written]. destruct (flush_anc (stack s)) as [r' rc'].
           unfold skip. cbn [f_flags gfl norecord orb fst]. reflexivity. }
-        assert (O2' : out s2 = out s ++ (if is_nil (flat_map (sel flt gd x d) kids) then [] else snd (flush_anc (stack s)))
-                             ++ flat_map (sel flt gd x d) kids).
+        assert (O2' : out s2 = out s ++ (if is_nil (flat_map (sel flt gd thr x d) kids) then [] else snd (flush_anc (stack s)))
+                             ++ flat_map (sel flt gd thr x d) kids).
         { rewrite O2. destruct (is_nil _); [reflexivity|].
           cbn [flush_anc gframe f_flags gfl written]. destruct (flush_anc (stack s)) as [r' rc'].
           unfold skip. cbn [f_flags gfl norecord orb snd]. reflexivity. }
         assert (F2' : fc s2 = fstate i o dp) by congruence.
         assert (S2'' : stack s2 = gframe sh true false false a 0 (ridx s) (fstate i o dp) ::
-                                  (if is_nil (flat_map (sel flt gd x d) kids) then stack s else fst (flush_anc (stack s))))
+                                  (if is_nil (flat_map (sel flt gd thr x d) kids) then stack s else fst (flush_anc (stack s))))
           by (rewrite Es; exact S2').
         rewrite (leave_norec s2 false false a 0 (ridx s) i o dp t1 _ i o dp S2'' F2').
         eexists. split; [reflexivity|].
@@ -372,7 +374,7 @@ Section filt.
         { subst s1. unfold idx in *. cbn [stack length]. lia. }
         unfold exec in E2. rewrite E2. cbn [dstep].
         destruct A2 as (F2 & En2 & C2 & R2 & S2 & O2). subst s1. cbn [stack out cached fc] in *.
-        set (Rk := flat_map (sel flt gd {| dead := false; scope := true; budget := gd - 1 |} (d + 1)) kids) in *.
+        set (Rk := flat_map (sel flt gd thr {| dead := false; scope := true; budget := gd - 1 |} (d + 1)) kids) in *.
         change (gframe sh false true false a t0 (ridx s) (fstate i 0 dp)) with (gf false true a t0 (ridx s) (fstate i 0 dp)) in S2, O2.
         rewrite flush_anc_gf in S2, O2. cbn [fst snd] in S2, O2.
         assert (S2' : stack s2 = gf (negb (is_nil Rk)) true a t0 (ridx s) (fstate i 0 dp) ::
@@ -380,15 +382,23 @@ Section filt.
         { rewrite S2. destruct (is_nil Rk); reflexivity. }
         rewrite (leave_rec s2 (negb (is_nil Rk)) true a t0 (ridx s) i 0 dp t1 _ (i + 1)%Z 0%Z 1 S2' F2 En2)
           by (try assumption; lia).
-        eexists. split; [reflexivity|].
-        unfold afterg. cbn [fc enabled cached ridx stack out is_nil].
-        replace (i + 1 - 1)%Z with i by lia. rewrite Hfc.
-        repeat split; try assumption; try congruence.
-        * destruct (is_nil Rk); reflexivity.
-        * rewrite O2, Hr. unfold entry_rec, E_. cbn [gframe f_start f_depth f_addr].
-          destruct (is_nil Rk) eqn:EN; cbn [negb].
-          -- destruct Rk; [|discriminate]. cbn [app]. rewrite <- !app_assoc. cbn [app]. reflexivity.
-          -- cbn [app]. rewrite <- !app_assoc. cbn [app]. reflexivity.
+        cbv zeta. fold Rk.
+        destruct ((thr <? t1 - t0) || negb (is_nil Rk)) eqn:Dec.
+        { eexists. split; [reflexivity|].
+          unfold afterg. cbn [fc enabled cached ridx stack out is_nil].
+          replace (i + 1 - 1)%Z with i by lia. rewrite Hfc.
+          repeat split; try assumption; try congruence.
+          - destruct (is_nil Rk); reflexivity.
+          - rewrite O2, Hr. unfold entry_rec, E_. cbn [gframe f_start f_depth f_addr].
+            destruct (is_nil Rk) eqn:EN; cbn [negb].
+            + destruct Rk; [|discriminate]. cbn [app]. rewrite <- !app_assoc. cbn [app]. reflexivity.
+            + cbn [app]. rewrite <- !app_assoc. cbn [app]. reflexivity. }
+        { eexists. split; [reflexivity|].
+          apply orb_false_iff in Dec. destruct Dec as [_ Dn]. apply negb_false_iff in Dn.
+          unfold afterg. cbn [fc enabled cached ridx stack out is_nil].
+          replace (i + 1 - 1)%Z with i by lia. rewrite Hfc.
+          rewrite Dn in *. destruct Rk; [|discriminate]. cbn [app] in O2. rewrite app_nil_r in *.
+          repeat split; try assumption; congruence. }
       + (* -N hit: this call and everything below is hidden *)
         destruct (enter_notrace s i dp a t0 Hfc Hen Hi Hgd Ef) as [Een Hhk]. rewrite Een, Hhk.
         set (s1 := {| fc := fstate i 1 1; enabled := true; cached := cached s;
@@ -424,7 +434,7 @@ Section filt.
           { subst s1. unfold idx in *. cbn [stack length]. lia. }
           unfold exec in E2. rewrite E2. cbn [dstep].
           destruct A2 as (F2 & En2 & C2 & R2 & S2 & O2). subst s1. cbn [stack out cached fc] in *.
-          set (Rk := flat_map (sel flt gd {| dead := false; scope := scope x; budget := budget x - 1 |} (d + 1)) kids) in *.
+          set (Rk := flat_map (sel flt gd thr {| dead := false; scope := scope x; budget := budget x - 1 |} (d + 1)) kids) in *.
           change (gframe sh false false false a t0 (ridx s) (fstate i 0 dp)) with (gf false false a t0 (ridx s) (fstate i 0 dp)) in S2, O2.
           rewrite flush_anc_gf in S2, O2. cbn [fst snd] in S2, O2.
           assert (S2' : stack s2 = gf (negb (is_nil Rk)) false a t0 (ridx s) (fstate i 0 dp) ::
@@ -432,14 +442,21 @@ Section filt.
           { rewrite S2. destruct (is_nil Rk); reflexivity. }
           rewrite (leave_rec s2 (negb (is_nil Rk)) false a t0 (ridx s) i 0 dp t1 _ i 0%Z (dp + 1) S2' F2 En2)
             by (try assumption; lia).
-          eexists. split; [reflexivity|].
-          unfold afterg. cbn [fc enabled cached ridx stack out is_nil]. rewrite Hfc.
-          repeat split; try assumption; try congruence.
-          -- destruct (is_nil Rk); reflexivity.
-          -- rewrite O2, Hr. unfold entry_rec, E_. cbn [gframe f_start f_depth f_addr].
-             destruct (is_nil Rk) eqn:EN; cbn [negb].
-             ++ destruct Rk; [|discriminate]. cbn [app]. rewrite <- !app_assoc. cbn [app]. reflexivity.
-             ++ cbn [app]. rewrite <- !app_assoc. cbn [app]. reflexivity.
+          cbv zeta. fold Rk.
+          destruct ((thr <? t1 - t0) || negb (is_nil Rk)) eqn:Dec.
+          { eexists. split; [reflexivity|].
+            unfold afterg. cbn [fc enabled cached ridx stack out is_nil]. rewrite Hfc.
+            repeat split; try assumption; try congruence.
+            - destruct (is_nil Rk); reflexivity.
+            - rewrite O2, Hr. unfold entry_rec, E_. cbn [gframe f_start f_depth f_addr].
+              destruct (is_nil Rk) eqn:EN; cbn [negb].
+              + destruct Rk; [|discriminate]. cbn [app]. rewrite <- !app_assoc. cbn [app]. reflexivity.
+              + cbn [app]. rewrite <- !app_assoc. cbn [app]. reflexivity. }
+          { eexists. split; [reflexivity|].
+            apply orb_false_iff in Dec. destruct Dec as [_ Dn]. apply negb_false_iff in Dn.
+            unfold afterg. cbn [fc enabled cached ridx stack out is_nil]. rewrite Hfc.
+            rewrite Dn in *. destruct Rk; [|discriminate]. cbn [app] in O2. rewrite app_nil_r in *.
+            repeat split; try assumption; congruence. }
         * (* outside every -F, or the depth budget is used up *)
           apply REJ; [|reflexivity]. right. split; [reflexivity|].
           apply andb_false_iff in Eacc. destruct Eacc as [Esc|Ebud].
@@ -450,21 +467,21 @@ Section filt.
           -- right. lia.
   Qed.
 
-  Theorem run_forest_sel : forall f, all_timed f -> all_positive f -> heights f <= ms ->
-    out (fst (exec c (flat_forest f) (init, []))) = flat_map (sel flt gd (x0 fm gd) 0) f.
+  Theorem run_forest_sel : forall f, all_timed f -> heights f <= ms ->
+    out (fst (exec c (flat_forest f) (init, []))) = flat_map (sel flt gd thr (x0 fm gd) 0) f.
   Proof.
-    intros f HT HP Hh.
-    assert (HF : Forall (fun k => timed k -> positive k -> forall s hk i o dp x d,
+    intros f HT Hh.
+    assert (HF : Forall (fun k => timed k -> forall s hk i o dp x d,
                      fc s = fstate i o dp -> Rel i o dp x -> enabled s = true -> ridx s = d ->
                      idx s + height k <= ms ->
-                     exists s', exec c (flat k) (s, hk) = (s', hk) /\ afterg s s' d (sel flt gd x d k)) f).
+                     exists s', exec c (flat k) (s, hk) = (s', hk) /\ afterg s s' d (sel flt gd thr x d k)) f).
     { clear -Hgd. induction f as [|k r IH]; constructor; [|exact IH].
-      intros Tk Pk s hk i o dp x d. apply run_call_sel; assumption. }
+      intros Tk s hk i o dp x d. apply run_call_sel; assumption. }
     assert (HR : Rel 0 0 0 (x0 fm gd)).
     { unfold Rel, x0. cbn [dead scope budget].
       destruct fm; cbn [negb]; intuition (try lia; try discriminate; try congruence). }
     assert (Hix : idx init + heights f <= ms) by (cbn; lia).
-    destruct (run_kids_sel f HF HT HP init [] 0%Z 0%Z 0 (x0 fm gd) 0 eq_refl HR eq_refl eq_refl Hix) as (s' & E & A).
+    destruct (run_kids_sel f HF HT init [] 0%Z 0%Z 0 (x0 fm gd) 0 eq_refl HR eq_refl eq_refl Hix) as (s' & E & A).
     unfold flat_forest. rewrite E. cbn [fst].
     destruct A as (_ & _ & _ & _ & _ & O). rewrite O. cbn [init out stack flush_anc snd app].
     destruct (is_nil _); reflexivity.
